@@ -532,6 +532,6 @@ func init() {
 				{Name: "fault", Mode: "fault", Shards: 12, Timeout: 60 * time.Minute}}
 		},
 		Exhaustive:  func(tier string) bool { return true },
-		Rule:        "Full matrix (enumerated completely, exhaustive=true for this part): {stdout file, stderr file, output variable, script} (16 combinations) x retries before success 0..2 (retry limit 2; some with limit 1 so that the step ends failed) x stream {stdout only, stderr only, both interleaved} x sizes {0, 1, 4095, 4096, 4097, 65536} (output-variable cases capped at 100000 B) with write chunkings {whole, 1000, 4096, 7 bytes}; plus 300 (4000) random cases with sizes up to 1 MiB, chunks down to 1 byte and 0-2 sibling steps. Each case is one real scheduler.Schedule run with the real command executor; the step is an emitter child process whose stdout bytes come from a-z/newline and stderr bytes from A-Z/blank, each byte a function of its offset and of the attempt number. Oracle after Schedule returns, for the LAST attempt: the log file named in Node.State().Log exists; its projection onto the stdout alphabet ends with exactly the bytes the last attempt wrote to stdout; its projection onto the stderr alphabet ends with the bytes written to stderr (or, when stderr: is configured, the stderr file does); the stdout: file ends with the stdout bytes. In-process passes (plain and under the race detector): 600 (20000) cases with the scripted executor writing 0 B - 200 kB in chunks of 1-7000 bytes straight into the node's writers, same oracle. Non-trivial/distinct = distinct cases.",
+		Rule:        "Full matrix (enumerated completely, exhaustive=true for this part): {stdout file, stderr file, output variable, script} (16 combinations) x retries before success 0..2 (retry limit 2; some with limit 1 so that the step ends failed) x stream {stdout only, stderr only, both interleaved} x sizes {0, 1, 4095, 4096, 4097, 65536} (output-variable cases capped at 100000 B) with write chunkings {whole, 1000, 4096, 7 bytes}; plus 300 (4000) random cases with sizes up to 1 MiB, chunks down to 1 byte and 0-2 sibling steps. Each case is one real scheduler.Schedule run with the real command executor; the step is an emitter child process whose stdout bytes come from a-z/newline and stderr bytes from A-Z/blank, each byte a function of its offset and of the attempt number. Oracle after Schedule returns, for the LAST attempt: the log file named in Node.State().Log exists; its projection onto the stdout alphabet ends with exactly the bytes the last attempt wrote to stdout; its projection onto the stderr alphabet ends with the bytes written to stderr (or, when stderr: is configured, the stderr file does); the stdout: file ends with the stdout bytes. In-process passes (plain and under the race detector): 600 (20000) cases with the scripted executor writing 0 B - 200 kB in chunks of 1-7000 bytes straight into the node's writers, same oracle. Fault pass: a worker process runs one emitter step (stdout 1-3000 B, stderr 0-900 B, with/without stderr file and output variable) under the ptrace supervisor, which makes every watched system call under the log directory fail in turn (ENOSPC; thorough also EIO): whatever happens to the log, the stdout: and stderr: files hold every byte of their streams (runs whose log could not even be opened are not judged: the step is not run). Non-trivial/distinct = distinct cases.",
 		Assumptions: []string{"files are opened for append, so 'ends with' is demanded, not equality", "captured outputs stay below the kernel's 128 KiB per-string exec limit"}})
 }
